@@ -859,6 +859,15 @@ pub fn run(ctx: &Ctx) -> (Vec<Case>, String, bool, BTreeMap<String, String>) {
     all.extend(crate::runner::par_cases(ctx, "C10", "probe", 0x301, |i, id| probe_case(i, id)));
     // configuration accesses of every type at every offset around the end of the configuration space,
     // for every length of it (C13's stream): only the device's own region is touched, refusals are errors
+    // multi-field configuration reads over the real MMIO transport while the device changes its
+    // configuration (C13's stream, MMIO rows): the generation register is consulted around every attempt
+    // and the read ends once the device is quiet
+    let mmio_rows: Vec<usize> = (0..45).filter(|i| (i / 5) % 3 == 1).collect();
+    let mut u = crate::runner::par_cases(ctx, "C10", "untorn-mmio", mmio_rows.len(), |i, id| crate::c13_config::consistent_case(ctx, mmio_rows[i], id));
+    for c in u.iter_mut() {
+        c.tag("config-generation");
+    }
+    all.extend(u);
     let mut b = crate::c13_config::bounds_cases_mmio(ctx, "C10");
     for c in b.iter_mut() {
         c.id = format!("C10-via-{}", c.id);
